@@ -242,8 +242,13 @@ Definition step_thread (np : nops) (s : shared) (t : thread) : shared * thread :
   | LLook2 =>
       match s_cur s, t_prev t with
       | Some g0, None =>
-          if s_full s then
-            (* the record does not fit: newCounter1 extends the file, stores the new
+          if s_full s && (match t_kind t with Adder => true | Changer => false end) then
+            (* (a changer reaches this lookup from its refresh only after it stored a
+               mapping of a new or just extended file, which has room: s_full is
+               clear by then; the first open of an EXISTING full file by a process
+               with pending counters is the one path on which a changer's own
+               lookup would extend the file, and is not modelled)
+               the record does not fit: newCounter1 extends the file, stores the new
                mapping, and returns a pointer into it; the cleanup (invalidate and
                refresh every counter, close the previous mapping) runs before
                lookup returns *)
